@@ -723,6 +723,17 @@ static bool run_op(Ctx& x, const Words& w)
       if (!x.srv) { line("bad-op"); return true; }
       x.srv.reset();
     }
+    else if (op == "cl-kill-timer")
+    {
+      // cl-kill-timer <ms>: a timer of the APPLICATION whose handler destroys the client (drops the last reference).  Armed
+      // shortly before a `sleep` it expires together with the client's own reconnection timer and — expiring earlier — is
+      // run first by the next poll: the client's timer completion is then already queued, with success, for a dead client
+      if (!x.cli) { line("bad-op"); return true; }
+      auto t = std::make_shared<ASIO::steady_timer>(x.io);
+      t->expires_after(std::chrono::milliseconds(std::stoul(w.at(1))));
+      ICli* c = x.cli.get();
+      t->async_wait([t, c](ASIO_ERROR_CODE const&) { Words d; d.push_back("cl-destroy"); c->op(d); });
+    }
     else if (op.compare(0, 3, "cl-") == 0)
     {
       if (!x.cli) { line("bad-op"); return true; }
